@@ -193,6 +193,9 @@ func parseMember(b []byte) (*Member, error) {
 	if len(b) < m.Len {
 		return nil, fmt.Errorf("member truncated: BSIZE says %d bytes, %d available", m.Len, len(b))
 	}
+	if m.Len < p+8 {
+		return nil, fmt.Errorf("BSIZE says the member is %d bytes long, shorter than its own header (%d bytes) plus trailer", m.Len, p)
+	}
 	mb := b[:m.Len]
 	readZ := func() (string, error) {
 		i := bytes.IndexByte(mb[p:], 0)
